@@ -19,7 +19,21 @@ func intrinsicKey(fn *ssa.Function) string {
 	return fn.String()
 }
 
-var intrinsicEffects = map[string]func(a *Act, m *modSet, com *ssa.CallCommon){}
+var intrinsicEffects = map[string]func(a *Act, m *modSet, com *ssa.CallCommon){
+	// Read may fix FieldsPerRecord (see the intrinsic)
+	"(*encoding/csv.Reader).Read": func(a *Act, m *modSet, com *ssa.CallCommon) {
+		rt := derefType(com.Args[0].Type())
+		stt := rt.Underlying().(*types.Struct)
+		for i := 0; i < stt.NumFields(); i++ {
+			if stt.Field(i).Name() == "FieldsPerRecord" {
+				h, hs := a.u.D.FieldHeap(rt, i)
+				hm := m.heap(h, hs)
+				hm.other = true
+				hm.unknown = true
+			}
+		}
+	},
+}
 
 var invokeIntrinsics = map[string]invokeFn{}
 
@@ -293,6 +307,36 @@ func init() {
 		},
 		"errors.New": func(a *Act, st *State, c *ssa.Function, x []Val, p tokenPos) Val {
 			return t1(freshError(a, st), resType(c, 0))
+		},
+		// encoding/csv: Read returns a newly allocated record (contents unconstrained) or an error; with a
+		// positive FieldsPerRecord a record returned without error has exactly that many fields, with
+		// FieldsPerRecord == 0 the first successful Read fixes it to the length of its record (documented
+		// behaviour of the standard library, trusted).
+		"(*encoding/csv.Reader).Read": func(a *Act, st *State, c *ssa.Function, x []Val, p tokenPos) Val {
+			d := a.u.D
+			rt := derefType(c.Signature.Recv().Type())
+			stt := rt.Underlying().(*types.Struct)
+			idx := -1
+			for i := 0; i < stt.NumFields(); i++ {
+				if stt.Field(i).Name() == "FieldsPerRecord" {
+					idx = i
+				}
+			}
+			if idx < 0 {
+				fail("csv.Reader has no field FieldsPerRecord")
+			}
+			h, hs := d.FieldHeap(rt, idx)
+			old := hsel(a.u, st.heap(h, hs), x[0].T)
+			arr := st.newRef()
+			n := d.Fresh("csvlen", "Int")
+			e := d.Fresh("csverr", "Iface")
+			a.u.Fact(or(eq(e, "niliface"), eq(app("itag", e), intLit(int64(d.NamedTag("<opaque error>"))))))
+			a.assumeAllocatedIface(st, e)
+			a.u.Fact(and(app("<=", "1", n), app("<=", n, "72057594037927936")))
+			a.u.Fact(implies(and(eq(e, "niliface"), app(">", old, "0")), eq(n, old)))
+			rec := ite(eq(e, "niliface"), app("mkslice", arr, "0", n, n), d.Zero(resType(c, 0)))
+			st.setHeap(h, hs, store(st.heap(h, hs), x[0].T, ite(and(eq(e, "niliface"), eq(old, "0")), n, old)))
+			return Val{Tuple: []Val{{T: rec, Typ: resType(c, 0)}, {T: e, Typ: resType(c, 1)}}}
 		},
 		"strings.HasPrefix":              uninterp("strings_HasPrefix"),
 		"strings.HasSuffix":              uninterp("strings_HasSuffix"),
